@@ -3,8 +3,8 @@
     proofs in C04/JobsProofs.v.  What is NOT a theorem here (run-time residue, see DESIGN.md C04): data races and heap
     safety of the object code (ASan / TSan runs of the same harness) and the sorting result itself (checked on every run
     by the harness: sorted, permutation of the string objects, exact LCPs). *)
-From Coq Require Import List.
-From TLXV Require Import C04.Jobs C04.JobsProofs.
+From Coq Require Import List Arith Sorting.Sorted Sorting.Permutation.
+From TLXV Require Import Common.Order C04.Jobs C04.JobsProofs C04.SampleSort.
 Import ListNotations.
 
 (** For every event sequence the code can produce -- any number of worker threads, any interleaving, any recursion
@@ -42,3 +42,23 @@ Theorem C04_shipped_refuted :
   run [] [ECreate None; EAdd 0; EDone 0; EAllDone 0; ENotify 0; EDelete 0; ETouch 0] = NotEnabled.
 Proof. exact (conj shipped_refuted fixed_rejects_late_touch). Qed.
 Print Assumptions C04_shipped_refuted.
+
+(** The functional content of one sample-sort step, for ARBITRARY (sorted) splitters -- the real code samples with
+    an address-seeded RNG -- any key width and any depth: classifying the strings (NUL-free, sharing their first
+    [depth] bytes) by the key at [depth] into the 2k+1 buckets and concatenating correctly sorted buckets gives a
+    sorted permutation of the input in unsigned-byte lexicographic order. *)
+Theorem C04_sample_sort_step_correct :
+  forall (w depth : nat) (splitters : list nat) (common : str) (sorter : nat -> list str -> list str),
+  Sorted le splitters ->
+  (forall b l, Sorted (sorted_rel lex_ltb) (sorter b l) /\ Permutation l (sorter b l)) ->
+  forall l, Forall (in_scope depth common) l ->
+    let res := concat (map (fun b => sorter b (filter (fun s => ps5_cls w depth splitters s =? b) l))
+                           (seq 0 (2 * length splitters + 1))) in
+    Sorted (sorted_rel lex_ltb) res /\ Permutation l res.
+Proof. exact ps5_step_correct. Qed.
+Print Assumptions C04_sample_sort_step_correct.
+
+(** The bucket index is monotone in the key for every sorted splitter list (ties between equal splitters included). *)
+Theorem C04_classify_monotone : forall sp k1 k2, Sorted le sp -> k1 <= k2 -> classify sp k1 <= classify sp k2.
+Proof. exact classify_mono. Qed.
+Print Assumptions C04_classify_monotone.
